@@ -209,3 +209,68 @@ def min_with_const_upper(ctx, e):
 def fits(r, ty):
     tr = TYPE_RANGE.get(ty)
     return r is not None and tr is not None and tr[0] <= r[0] and r[1] <= tr[1]
+
+
+def closure_range_param(fx, body):
+    """For a closure whose enclosing functions only build constant ranges lo..hi, the closure parameters fed by
+    `(lo..hi).map(|x| ..)` lie in [min lo, max hi - 1]. Returns (lo, hi) or None."""
+    los, his = [], []
+    cur = body
+    hops = 0
+    while cur is not None and hops < 4:
+        parent = fx.bodies.get(cur.parent)
+        if parent is None:
+            break
+        for bb, j, s in parent.stmts():
+            rv = s.get("rv")
+            if rv and rv["k"] == "agg" and rv.get("agg") == "adt" and norm(rv.get("adt", "")).endswith("ops::Range"):
+                a, b = rv["ops"]
+                if "int" in a and "int" in b:
+                    los.append(a["int"])
+                    his.append(b["int"] - 1)
+                else:
+                    return None
+        cur = parent
+        hops += 1
+    if los:
+        return (min(los), max(his))
+    return None
+
+
+def rng_with_callers(ctx, e, exclude=()):
+    """rng(e) where parameters of the current function are bounded by the union of the ranges of the actual
+    arguments at every call site (one level), or, for closures fed by constant ranges, by those ranges."""
+    body, fx = ctx.body, ctx.fx
+    extra = dict(ctx.extra)
+    for x in walk(e):
+        if isinstance(x, tuple) and x and x[0] == "arg" and x not in extra:
+            i = x[1]
+            if body.kind == "Closure":
+                r = closure_range_param(fx, body)
+                if r:
+                    extra[x] = r
+                continue
+            callers = [c for c in fx.callers_of(lambda n: fx.body(n) is not None and fx.body(n).name == body.name) if "::tests::" not in c[0].name and not any(c[0].name.startswith(p) for p in exclude)]
+            rs = []
+            for (cb, bb, t) in callers:
+                ae = cb.expr(t["args"][i - 1], expand_named=True, at=bb)
+                cctx = Ctx(cb, bb, fx)
+                r = rng(cctx, ae)
+                if cb.kind == "Closure":
+                    cr = closure_range_param(fx, cb)
+                    if cr:
+                        ex = {y: cr for y in walk(ae) if isinstance(y, tuple) and y and y[0] in ("arg", "var")}
+                        # a captured loop variable of an enclosing closure: (*(*env).k)
+                        d = deep_strip(ae)
+                        if isinstance(d, tuple) and d[0] == "field" and isinstance(d[1], tuple) and d[1][0] == "arg" and d[1][1] == 1:
+                            ex[ae] = cr
+                        r2 = rng(Ctx(cb, bb, fx, ex), ae)
+                        if r2 is not None and (r is None or (r2[1] - r2[0]) < (r[1] - r[0])):
+                            r = r2
+                if r is None:
+                    rs = None
+                    break
+                rs.append(r)
+            if rs:
+                extra[x] = (min(r[0] for r in rs), max(r[1] for r in rs))
+    return rng(Ctx(body, ctx.bb, fx, extra), e)
